@@ -2,6 +2,8 @@ package replicator
 
 import "sync"
 
+import "berty.tech/go-orbit-db/verifhook"
+
 type replicationInfo struct {
 	progress int
 	max      int
@@ -12,6 +14,7 @@ func (r *replicationInfo) SetProgress(i int) {
 	r.lock.Lock()
 	defer r.lock.Unlock()
 
+	verifhook.Observe("replinfo.progress", r, r.progress, i)
 	r.progress = i
 }
 
@@ -19,6 +22,7 @@ func (r *replicationInfo) SetMax(i int) {
 	r.lock.Lock()
 	defer r.lock.Unlock()
 
+	verifhook.Observe("replinfo.max", r, r.max, i)
 	r.max = i
 }
 
@@ -40,6 +44,7 @@ func (r *replicationInfo) Reset() {
 	r.lock.Lock()
 	defer r.lock.Unlock()
 
+	verifhook.Observe("replinfo.reset", r)
 	r.progress = 0
 	r.max = 0
 }
